@@ -308,7 +308,7 @@ func classifyC02(sc *Scenario, h *History, st *Stats) string {
 func init() {
 	register(&Property{
 		ID: "C02", Level: "exploration",
-		Rule:     "one DATA message whose text contains bait command lines and end-marker look-alikes (LF.LF, LF.CRLF, CRLF.LF, CR.CR, ...), then the real end marker, then 1-4 pipelined marker commands and QUIT; crossed with backend {reads all, k octets, nothing} x {accept, SMTPError, plain error} x size limit {none, below, at, above} x {SMTP, LMTP plain backend, LMTP per-recipient backend} (systematic product in the sweep) under drawn segmentation (markers share the end marker's segment in half the runs). Non-trivial: the body contains a bait or a look-alike; distinct by (class string of the stream, mode, read mode, verdict, limit kind, marker list).",
+		Rule:     "one DATA message whose text contains bait command lines and end-marker look-alikes (LF.LF, LF.CRLF, CRLF.LF, CR.CR, ...), then the real end marker, then 1-4 pipelined marker commands and QUIT; crossed with backend {reads all, k octets, nothing} x {accept, SMTPError, plain error} x size limit {none, below, at, above} x {SMTP, LMTP plain backend, LMTP per-recipient backend} (systematic product in the sweep) under drawn segmentation (markers share the end marker's segment in half the runs). Non-trivial: the body contains a bait or a look-alike; distinct by (class string of the stream, mode, read mode, verdict, limit kind, marker list). Fault strata: the client stalls inside the message past ReadTimeout; the backend panics at entry, after a partial read or at the end (only 'never executed as a command' is judged there).",
 		Gen:      genC02,
 		Check:    checkC02,
 		Classify: classifyC02,
